@@ -51,8 +51,78 @@ func drawNested(t *rapid.T, f Family) Paths {
 	return ps
 }
 
+// drawTipsAndBars draws 2-7 well separated shapes whose vertices share Y levels without sharing
+// edges: axis-parallel bars (horizontal edges on two levels, every level used by one bar only) and
+// pointed polygons (stars / chevrons with generic X, some vertices - the tips - exactly on a level,
+// no horizontal edge). Islands in pockets and holes in spikes then have a horizontal edge exactly at
+// the height of a tip of their neighbour: the containment tests that build the tree meet ring
+// vertices lying exactly on the scanline of the tested point (seeded change C04-E), while no input
+// edges coincide and nothing touches.
+func drawTipsAndBars(t *rapid.T) Paths {
+	const step = 100
+	levels := []int64{0, 1, 2, 3, 4, 5, 6, 7, 8, 9}
+	// shuffle the levels for the bars (each level carries at most one bar edge)
+	for i := len(levels) - 1; i > 0; i-- {
+		j := rapid.IntRange(0, i).Draw(t, "lvShuffle")
+		levels[i], levels[j] = levels[j], levels[i]
+	}
+	var ps Paths
+	n := rapid.IntRange(2, 7).Draw(t, "tbShapes")
+	bars := 0
+	for k := 0; k < n; k++ {
+		var p Path
+		if rapid.IntRange(0, 2).Draw(t, "tbKind") == 0 && bars < 4 {
+			y0, y1 := levels[2*bars]*step, levels[2*bars+1]*step
+			bars++
+			if y0 > y1 {
+				y0, y1 = y1, y0
+			}
+			x0 := rapid.Int64Range(-50, 900).Draw(t, "barX")
+			w := rapid.Int64Range(30, 700).Draw(t, "barW")
+			p = Path{{X: x0, Y: y0}, {X: x0 + w, Y: y0}, {X: x0 + w, Y: y1}, {X: x0, Y: y1}}
+		} else {
+			cx := rapid.Int64Range(0, 1000).Draw(t, "ptCx")
+			cy := rapid.Int64Range(0, 900).Draw(t, "ptCy")
+			m := rapid.IntRange(3, 9).Draw(t, "ptN")
+			for i := 0; i < m; i++ {
+				ang := (float64(i) + rapid.Float64Range(0.1, 0.9).Draw(t, "ptA")) * 2 * math.Pi / float64(m)
+				r := rapid.Float64Range(60, 600).Draw(t, "ptR")
+				v := P{X: cx + int64(r*math.Cos(ang)), Y: cy + int64(r*math.Sin(ang))}
+				if rapid.IntRange(0, 9).Draw(t, "ptSnap") < 6 {
+					v.Y = (v.Y + step/2) / step * step // a tip exactly on a level
+				} else if v.Y%step == 0 {
+					v.Y += 37
+				}
+				if len(p) > 0 && p[len(p)-1].Y == v.Y {
+					v.Y += 13 // no horizontal edges in pointed shapes
+				}
+				p = append(p, v)
+			}
+			if len(p) > 1 && p[0].Y == p[len(p)-1].Y {
+				p[len(p)-1].Y += 13
+			}
+		}
+		if rapid.Bool().Draw(t, "tbRev") {
+			p = c2.ReversePath(p)
+		}
+		ps = append(ps, p)
+	}
+	return ps
+}
+
 func drawC04(t *rapid.T) *C04Case {
 	f := drawFamily(t)
+	if rapid.IntRange(0, 5).Draw(t, "tipsAndBars") == 0 {
+		all := drawTipsAndBars(t)
+		c := &C04Case{C01Case: C01Case{Fam: Family{Kind: "tips-and-bars", R: 2000}}}
+		k := rapid.IntRange(1, len(all)).Draw(t, "tbSplit")
+		c.Subj, c.Clip = all[:k], all[k:]
+		c.CT = rapid.SampledFrom(allClipTypes).Draw(t, "ct")
+		c.FR = rapid.SampledFrom(allFillRules).Draw(t, "fr")
+		c.Variant = rapid.SampledFrom([]string{"func64", "engine64", "funcD", "engineD"}).Draw(t, "variant")
+		c.Prec = rapid.SampledFrom([]int{2, 1, -1, 3, -2}).Draw(t, "prec")
+		return c
+	}
 	c := &C04Case{C01Case: *drawBoolCase(t, f)}
 	c.Entry = 0
 	if rapid.IntRange(0, 3).Draw(t, "many") == 0 {
